@@ -49,10 +49,14 @@ func init() {
 	monitors["C20"] = c20.Run
 }
 
-// workerMain dispatches crash-isolated child workers (C13, C14, C15).
+// workerMain dispatches crash-isolated child workers (C01, C05, C13, C14, C15).
 func workerMain(args []string) {
 	if len(args) > 0 && args[0] == "c01" {
 		c01.Worker(args[1:])
+		return
+	}
+	if len(args) > 0 && args[0] == "c05" {
+		c05.Worker(args[1:])
 		return
 	}
 	if len(args) > 0 && args[0] == "c13" {
